@@ -39,12 +39,12 @@ class Tally:
         self.extra[key] = self.extra.get(key, 0) + n
 
     def bad(self, sig, case, expected=None, observed=None, detail=None, tags=()):
-        r = self.viols.get(sig)
+        key = core.vkey(sig, tags)
+        r = self.viols.get(key)
         if r is None:
-            self.viols[sig] = [case, expected, observed, detail, set(tags), 1]
+            self.viols[key] = [case, expected, observed, detail, set(tags), 1, sig]
         else:
             r[5] += 1
-            r[4] |= set(tags)
 
     def merge(self, other):
         self.evaluations += other.evaluations
@@ -55,7 +55,6 @@ class Tally:
                 self.viols[sig] = list(r)
             else:
                 mine[5] += r[5]
-                mine[4] |= r[4]
         for k, v in other.extra.items():
             self.extra[k] = self.extra.get(k, 0) + v
         for s in other.samples:
@@ -72,10 +71,10 @@ def run_shards(ctx, fn, shard_args, part, procs=None, rule=None):
     total = Tally()
     for t in results:
         total.merge(t)
-    for sig in sorted(total.viols):
-        case, exp, obs, detail, tags, occ = total.viols[sig]
+    for key in sorted(total.viols):
+        case, exp, obs, detail, tags, occ, sig = total.viols[key]
         ctx.violation(sig, case, exp, obs, detail, tags)
-        ctx.viol[sig]['occurrences'] += occ - 1
+        ctx.add_occurrences(sig, occ - 1, tags)
     cov = ctx.coverage
     cov['evaluations'] = cov.get('evaluations', 0) + total.evaluations
     cov['distinct_nontrivial'] = cov.get('distinct_nontrivial', 0) + total.nontrivial
